@@ -973,8 +973,8 @@ class BaseWorkflow(object, metaclass=abc.ABCMeta):
                 List of absence step time in simulation.
         """
         for t in self.task_list:
-            if not isinstance(t, BaseSubProjectTask):
-                t.remove_absence_time_list(absence_time_list)
+            # BaseSubProjectTask has a flag attribute of the same name which hides the method
+            BaseTask.remove_absence_time_list(t, absence_time_list)
 
     def insert_absence_time_list(self, absence_time_list):
         """
@@ -985,8 +985,7 @@ class BaseWorkflow(object, metaclass=abc.ABCMeta):
                 List of absence step time in simulation.
         """
         for t in self.task_list:
-            if not isinstance(t, BaseSubProjectTask):
-                t.insert_absence_time_list(absence_time_list)
+            BaseTask.insert_absence_time_list(t, absence_time_list)
 
     def print_log(self, target_step_time):
         """
